@@ -129,6 +129,7 @@ type SpecRev struct {
 }
 
 type SpecState struct {
+	Tipd    int                 `json:"tipd"`
 	Rev     SpecRev             `json:"rev"`
 	Roots   []int               `json:"roots"`
 	Stored  []int               `json:"stored"`
@@ -534,6 +535,8 @@ func (a *Adapter) Step(act Act) (out Outcome, err error) {
 		a.Issues = append(a.Issues, a.AuditOthers()...)
 	}()
 	switch act.Op {
+	case "Mine": // time passes: n blocks are mined, wallet and contractor catch up
+		return out, a.E.Mine(types.VoidAddress, act.N)
 	case "Next":
 		return a.next(act)
 	case "Deliver":
@@ -1070,17 +1073,20 @@ func (a *Adapter) finish(act Act) (out Outcome, err error) {
 			set(true, why, Reply{})
 			return
 		}
-		rn := int64(0)
+		rn, rv := int64(0), int64(0)
 		if r.Renewed {
 			rn = 1
 		}
-		if r.Revisable == r.Renewed {
-			a.Issues = append(a.Issues, "latest: revisable flag inconsistent with renewed flag")
+		if r.Revisable {
+			rv = 1
+		}
+		if r.Revisable && r.Renewed {
+			a.Issues = append(a.Issues, "latest: a renewed contract is reported revisable")
 		}
 		if !SigsOK(r.Contract) {
 			a.Issues = append(a.Issues, "latest: reported revision is not doubly signed")
 		}
-		out.Reply = Reply{K: "ok", N: int64(r.Contract.RevisionNumber) - int64(a.Base.RevisionNumber) + a.SpecBase.Num, L: []int64{rn}}
+		out.Reply = Reply{K: "ok", N: int64(r.Contract.RevisionNumber) - int64(a.Base.RevisionNumber) + a.SpecBase.Num, L: []int64{rn, rv}}
 	case "fund":
 		var r proto4.RPCFundAccountsResponse
 		rej, why := s.readResp(&r)
@@ -1313,10 +1319,14 @@ func (a *Adapter) Project(want SpecState, checkBalances bool) (diffs []string, r
 	if real.Renewed != want.Renewed {
 		add("renewed: host %v spec %v", real.Renewed, want.Renewed)
 	}
-	if real.Revisable == want.Renewed {
-		add("revisable: host %v but spec renewed=%v", real.Revisable, want.Renewed)
+	if real.Revisable != (want.Tipd < 0) {
+		add("revisable: host %v but the tip is at proof height %+d", real.Revisable, want.Tipd)
 	}
-	if err := ConsensusAccepts(a.E, a.K.ID, rev); err != nil && rev.RevisionNumber > 0 && !real.Renewed {
+	if got := int(a.E.CM.Tip().Height) - int(rev.ProofHeight); got != want.Tipd {
+		add("tipd: chain tip is at proof height %+d, spec %+d", got, want.Tipd)
+	}
+	// (while the proof window has not opened; afterwards no revision at all can be confirmed)
+	if err := ConsensusAccepts(a.E, a.K.ID, rev); err != nil && rev.RevisionNumber > 0 && !real.Renewed && a.E.CM.Tip().Height < rev.ProofHeight {
 		add("consensus: latest revision not acceptable: %v", err)
 	}
 	for _, id := range want.Stored {
